@@ -7,6 +7,7 @@
 //	cut-at-token  bounded-exhaustive: the same programs cut before (and inside) every lexeme, the
 //	           cut followed by nothing or by a lexeme at which the scanner itself fails (open
 //	           string, open raw string, open block comment, '@x', '@', NUL, a malformed duration).
+//	durations  every DURATION shape (each subset of h m s ms µs ns in descending order) as a valid @server value.
 //	file-io    format.File on a file in the scratch directory: same verdict and same text as
 //	           format.Source of the same bytes; parser.New on the file name; missing file, directory.
 //	node-api   the exported methods of every node of a parsed AST (Pos, End, Format, comment
@@ -140,17 +141,14 @@ service plain {
 }
 
 // substitution words: every Go keyword, the words the API parser treats specially, plain identifiers
-var substWords = func() []string {
-	var w []string
-	for _, k := range []string{"break", "case", "chan", "const", "continue", "default", "defer", "else", "fallthrough", "for",
-		"func", "go", "goto", "if", "import", "interface", "map", "package", "range", "return", "select", "struct", "switch",
-		"type", "var"} {
-		w = append(w, k)
-	}
-	w = append(w, "syntax", "info", "service", "returns", "any", "api", "get", "post", "delete", "interface{}",
-		"@doc", "@handler", "@server", "zed", "Zed", "_", "7", "1s")
-	return w
-}()
+// (the first nPlainGoKeywords entries are Go keywords the API parser does not look at by name)
+var substWords = []string{"break", "case", "chan", "const", "continue", "default", "defer", "else", "fallthrough", "for",
+	"func", "go", "goto", "if", "package", "range", "return", "select", "struct", "switch", "var",
+	"import", "interface", "map", "type",
+	"syntax", "info", "service", "returns", "any", "api", "get", "post", "delete", "interface{}",
+	"@doc", "@handler", "@server", "zed", "Zed", "_", "7", "1s"}
+
+const nPlainGoKeywords = 21
 
 type wordPos struct {
 	prog  int
@@ -344,8 +342,9 @@ func exerciseNodes(src []byte, strict bool) (res nodeAPIResult, cr *crash, hg *h
 			res.nodes++
 			res.typesSeen[nr.typ]++
 			if strict && !seenBad[nr.typ] {
+				// the commas between the names of a member are not nodes of the AST
 				got, err := scanJoined(txt)
-				if err != nil || got != nr.leaves {
+				if err != nil || strings.ReplaceAll(got, ",", "") != strings.ReplaceAll(nr.leaves, ",", "") {
 					seenBad[nr.typ] = true
 					res.bad = append(res.bad, rawFinding{
 						Key: "C20/node-format/" + nr.typ,
@@ -501,13 +500,35 @@ func runExtFamilies(t *testing.T) {
 		report(c, res, src, o, nil, map[string]any{"family": "base-programs", "program": bp.name})
 	})
 
+	// ---- every duration literal shape: each non-empty subset of the units h m s ms µs ns in descending order
+	units := []string{"h", "m", "s", "ms", "µs", "ns"}
+	kit.Run(t, "C20", "durations", 63, func(c *kit.Case) {
+		var d strings.Builder
+		for i, u := range units {
+			if (c.Index+1)&(1<<i) != 0 {
+				d.WriteString(fmt.Sprint(c.R.Range(1, 999)) + u)
+			}
+		}
+		src := "@server (\n\ttimeout: " + d.String() + "\n\tt2: " + d.String() + " // c\n)\nservice x {\n\t@handler h\n\tget /a\n}\n"
+		o := checkOpts{valid: true}
+		res := check([]byte(src), o)
+		tally(c, "duration", res)
+		c.Sig(res.accepted, "durations", c.Index)
+		report(c, res, src, o, nil, map[string]any{"family": "durations", "duration": d.String()})
+	})
+
 	// ---- a keyword where an identifier is required, an identifier where a keyword is required
 	kit.Run(t, "C20", "kw-subst", len(words), func(c *kit.Case) {
 		wp := words[c.Index]
 		bp := basePrograms[wp.prog]
 		orig := bp.src[wp.start:wp.end]
-		for _, w := range substWords {
+		for wi, w := range substWords {
 			if w == orig {
+				continue
+			}
+			// quick: the words the API parser treats specially at every position, the other Go
+			// keywords in rotation (4 per position); thorough: every word at every position
+			if !kit.Thorough() && wi < nPlainGoKeywords && (wi+c.Index)%5 != 0 {
 				continue
 			}
 			src := bp.src[:wp.start] + w + bp.src[wp.end:]
@@ -530,7 +551,10 @@ func runExtFamilies(t *testing.T) {
 	kit.Run(t, "C20", "cut-at-token", len(cuts), func(c *kit.Case) {
 		cp := cuts[c.Index]
 		bp := basePrograms[cp.prog]
-		for _, e := range cutEndings {
+		for ei, e := range cutEndings {
+			if !kit.Thorough() && ei > 0 && (ei+c.Index)%3 != 0 {
+				continue
+			}
 			src := bp.src[:cp.at] + e
 			o := checkOpts{degenerate: true, mutant: true}
 			res := check([]byte(src), o)
